@@ -114,6 +114,17 @@ pub struct IggyConsumer {
     init_retries: Option<u32>,
     init_retry_interval: IggyDuration,
     allow_replay: bool,
+    store_offsets_task: Option<tokio::task::JoinHandle<()>>,
+}
+
+impl Drop for IggyConsumer {
+    fn drop(&mut self) {
+        // The interval auto-commit task must not outlive the consumer: it would keep storing this consumer's last
+        // position for ever, moving the offset of the same consumer identity under the consumer that replaces it.
+        if let Some(task) = self.store_offsets_task.take() {
+            task.abort();
+        }
+    }
 }
 
 impl IggyConsumer {
@@ -190,6 +201,7 @@ impl IggyConsumer {
             init_retries,
             init_retry_interval,
             allow_replay,
+            store_offsets_task: None,
         }
     }
 
@@ -331,12 +343,16 @@ impl IggyConsumer {
         self.subscribe_events().await;
         self.init_consumer_group().await?;
 
-        match self.auto_commit {
-            AutoCommit::Interval(interval) => self.store_offsets_in_background(interval),
-            AutoCommit::IntervalOrWhen(interval, _) => self.store_offsets_in_background(interval),
-            AutoCommit::IntervalOrAfter(interval, _) => self.store_offsets_in_background(interval),
-            _ => {}
-        }
+        self.store_offsets_task = match self.auto_commit {
+            AutoCommit::Interval(interval) => Some(self.store_offsets_in_background(interval)),
+            AutoCommit::IntervalOrWhen(interval, _) => {
+                Some(self.store_offsets_in_background(interval))
+            }
+            AutoCommit::IntervalOrAfter(interval, _) => {
+                Some(self.store_offsets_in_background(interval))
+            }
+            _ => None,
+        };
 
         let client = self.client.clone();
         let consumer = self.consumer.clone();
@@ -413,7 +429,7 @@ impl IggyConsumer {
         Ok(())
     }
 
-    fn store_offsets_in_background(&self, interval: IggyDuration) {
+    fn store_offsets_in_background(&self, interval: IggyDuration) -> tokio::task::JoinHandle<()> {
         let client = self.client.clone();
         let consumer = self.consumer.clone();
         let stream_id = self.stream_id.clone();
@@ -439,7 +455,7 @@ impl IggyConsumer {
                     .await;
                 }
             }
-        });
+        })
     }
 
     pub(crate) fn send_store_offset(&self, partition_id: u32, offset: u64) {
